@@ -2,7 +2,10 @@ package main
 
 import (
 	"fmt"
+	"go/ast"
+	"go/constant"
 	"go/token"
+	"math/big"
 	"go/types"
 	"os"
 	"sort"
@@ -27,6 +30,7 @@ type Verifier struct {
 	modMemo map[*ssa.Function]*modSet
 	known   *KnownFile
 	prop    string
+	immut   map[*ssa.Global]bool
 }
 
 func (v *Verifier) nextEpoch() int { v.epoch++; return v.epoch }
@@ -62,7 +66,7 @@ func (v *Verifier) isNoEffect(name string) bool {
 }
 
 func loadVerifier(repo, verif string, patterns []string) (*Verifier, error) {
-	v := &Verifier{repo: repo, verif: verif, tids: map[string]int{}, noEff: map[string]bool{}, modMemo: map[*ssa.Function]*modSet{}}
+	v := &Verifier{repo: repo, verif: verif, tids: map[string]int{}, noEff: map[string]bool{}, modMemo: map[*ssa.Function]*modSet{}, immut: map[*ssa.Global]bool{}}
 	cs, err := loadAllContracts(verif, repo)
 	if err != nil {
 		return nil, err
@@ -112,7 +116,7 @@ func (v *Verifier) newExec(fn *ssa.Function, name string, ctr *FuncContract, mod
 	fx := &fnExec{v: v, fn: fn, name: name, ctr: ctr, mode: mode, declared: map[string]bool{}, vals: map[ssa.Value]SV{}, heapSorts: map[string]string{},
 		oblCount: map[string]int{}, sharedMut: map[ssa.Value]bool{}, strConsts: map[string]Term{}, fltConsts: map[string]Term{}, needs: map[string]bool{},
 		usedAxioms: map[string]bool{}, unspecCallees: map[string]bool{}, externUsed: map[string]bool{}, contractsUsed: map[string]bool{}, ghostTypes: map[string]string{},
-		ranges: map[*ssa.Range]*rangeState{}, rangeNames: map[string]*rangeState{}}
+		ranges: map[*ssa.Range]*rangeState{}, rangeNames: map[string]*rangeState{}, tablesUsed: map[string]bool{}}
 	fx.overflowChecks = true
 	fx.safetyChecks = true
 	if ctr != nil {
@@ -365,7 +369,123 @@ func (v *Verifier) globalInit(fx *fnExec, g *ssa.Global) (SV, bool) {
 	return v.tableInit(fx, g)
 }
 
-func (v *Verifier) tableInit(fx *fnExec, g *ssa.Global) (SV, bool) { return nil, false }
+// tableInit reads the composite-literal initialiser of a package-level array of constants and returns it as an SMT
+// array, after checking over the SSA of the whole package that nothing stores through the global (immutability frame).
+func (v *Verifier) tableInit(fx *fnExec, g *ssa.Global) (SV, bool) {
+	et := g.Type().(*types.Pointer).Elem()
+	at, ok := et.Underlying().(*types.Array)
+	if !ok {
+		return nil, false
+	}
+	if _, ok := fx.scalarSort(at.Elem()); !ok {
+		return nil, false
+	}
+	if !v.globalImmutable(g) {
+		fx.noteUnspec("package-level table " + g.Name() + " is written somewhere: treated as unknown")
+		return nil, false
+	}
+	var pkg *packages.Package
+	packages.Visit(v.pkgs, nil, func(p *packages.Package) {
+		if p.Types == g.Pkg.Pkg {
+			pkg = p
+		}
+	})
+	if pkg == nil {
+		return nil, false
+	}
+	var lit *ast.CompositeLit
+	for _, f := range pkg.Syntax {
+		for _, d := range f.Decls {
+			gd, ok := d.(*ast.GenDecl)
+			if !ok || gd.Tok != token.VAR {
+				continue
+			}
+			for _, sp := range gd.Specs {
+				vs := sp.(*ast.ValueSpec)
+				for i, n := range vs.Names {
+					if pkg.TypesInfo.Defs[n] == g.Object() && i < len(vs.Values) {
+						if cl, ok := vs.Values[i].(*ast.CompositeLit); ok {
+							lit = cl
+						}
+					}
+				}
+			}
+		}
+	}
+	if lit == nil {
+		return nil, false
+	}
+	es, _ := fx.scalarSort(at.Elem())
+	arr := fx.zeroOfSort(arrSort(fx.isort(), es))
+	idx := int64(0)
+	for _, e := range lit.Elts {
+		val := e
+		if kv, ok := e.(*ast.KeyValueExpr); ok {
+			tv := pkg.TypesInfo.Types[kv.Key]
+			if tv.Value == nil {
+				return nil, false
+			}
+			k, _ := constant.Int64Val(constant.ToInt(tv.Value))
+			idx = k
+			val = kv.Value
+		}
+		tv := pkg.TypesInfo.Types[val]
+		if tv.Value == nil {
+			return nil, false
+		}
+		cv := fx.constSV(tv.Value, at.Elem())
+		arr = tStore(arr, fx.litTo(big.NewInt(idx), fx.isort()), fx.sc(cv, es))
+		idx++
+	}
+	fx.tablesUsed[g.Name()] = true
+	return Sc{arr, et}, true
+}
+
+func (v *Verifier) globalImmutable(g *ssa.Global) bool {
+	if r, ok := v.immut[g]; ok {
+		return r
+	}
+	res := true
+	var rooted func(x ssa.Value) bool
+	rooted = func(x ssa.Value) bool {
+		switch y := x.(type) {
+		case *ssa.Global:
+			return y == g
+		case *ssa.FieldAddr:
+			return rooted(y.X)
+		case *ssa.IndexAddr:
+			return rooted(y.X)
+		}
+		return false
+	}
+	for fn := range ssautil.AllFunctions(v.prog) {
+		if fn.Pkg != g.Pkg || fn.Name() == "init" {
+			continue
+		}
+		for _, b := range fn.Blocks {
+			for _, in := range b.Instrs {
+				switch x := in.(type) {
+				case *ssa.Store:
+					if rooted(x.Addr) {
+						res = false
+					}
+				case *ssa.Slice:
+					if rooted(x.X) {
+						res = false // a slice of the table may be written through
+					}
+				case *ssa.Call:
+					for _, a := range x.Call.Args {
+						if rooted(a) {
+							res = false
+						}
+					}
+				}
+			}
+		}
+	}
+	v.immut[g] = res
+	return res
+}
 
 func (v *Verifier) knownFor(obl string) *KnownFinding {
 	if v.known == nil {
